@@ -67,6 +67,12 @@ type Behaviour struct {
 	// Noise: this many other syncers of the same process (bridge stores of their own, on their own files) keep appending
 	// deposits to their exit trees while the behaviour runs - whatever the trees of one process share is under contention
 	Noise int `json:"noise"`
+	// A store file written by an earlier run of the code (an upgrade): the node starts on a copy of Fixture, which already
+	// holds the first Preload operations (generated with Seed); Save: after the behaviour, keep the node's file there.
+	Fixture string `json:"fixture"`
+	Preload int    `json:"preload"`
+	Seed    int64  `json:"seed"`
+	Save    string `json:"save"`
 }
 
 // ---------------------------------------------------------------------------------------------- result classes
@@ -443,10 +449,34 @@ func (r *runner) runOne(idx int, b Behaviour, mk func(dir string, rng *rand.Rand
 	if err != nil {
 		return err
 	}
+	if b.Seed != 0 {
+		kd.setSeed(b.Seed)
+	}
+	if b.Fixture != "" {
+		if err := copyFile(b.Fixture, kd.dbPath()); err != nil {
+			return fmt.Errorf("fixture: %w", err)
+		}
+	}
 	if err := kd.open(); err != nil {
 		return fmt.Errorf("open: %w", err)
 	}
 	defer kd.close()
+	if b.Save != "" {
+		defer func() {
+			kd.close()
+			// (the migration runner of the repository keeps a handle of its own open, so closing the store does not fold the
+			// write-ahead log into the file)
+			if c, err := sql.Open("sqlite3", "file:"+kd.dbPath()); err == nil {
+				if _, err := c.Exec(`PRAGMA wal_checkpoint(TRUNCATE)`); err != nil {
+					panic(fmt.Sprintf("checkpoint: %v", err))
+				}
+				c.Close()
+			}
+			if err := copyFile(kd.dbPath(), b.Save); err != nil {
+				panic(fmt.Sprintf("save fixture: %v", err))
+			}
+		}()
+	}
 	inj, err := newInjector(kd.dbPath())
 	if err != nil {
 		return fmt.Errorf("injector: %w", err)
@@ -457,6 +487,18 @@ func (r *runner) runOne(idx int, b Behaviour, mk func(dir string, rng *rand.Rand
 		defer stop()
 	}
 	r.w.Emit(tr.M{"ev": "reset", "kind": b.Kind, "t": idx})
+	if b.Fixture != "" && b.Preload > 0 {
+		// the file already holds these operations: only the reference (and the twin, written by the current code) follow
+		for _, op := range b.Ops[:b.Preload] {
+			if op.Op != "process" {
+				return fmt.Errorf("fixture behaviours preload process operations only")
+			}
+			kd.prepare(op)
+			kd.applied(op)
+			r.w.Emit(tr.M{"ev": "process", "num": op.Num, "evs": kd.describe(op), "fault": "none", "at": 0, "res": "ok", "ms": 0, "preloaded": true})
+		}
+		b.Ops = b.Ops[b.Preload:]
+	}
 	r.w.Emit(tr.M{"ev": "snap", "s": kd.snapshot()})
 	for _, op := range b.Ops {
 		// a query in flight in another goroutine: the operation cannot reuse the pool's first connection
@@ -747,4 +789,12 @@ func RunChild(jobJSON string) error {
 		fmt.Println("DONE err")
 	}
 	return nil
+}
+
+func copyFile(from, to string) error {
+	b, err := os.ReadFile(from)
+	if err != nil {
+		return err
+	}
+	return os.WriteFile(to, b, 0o600)
 }
